@@ -180,6 +180,21 @@ def c02(pid, tier, t0):
         "the clause 'allowed again' is enforced when every buffer is at the history position of its last successful whole write or read"])
 
 
+@check("C03")
+def c03(pid, tier, t0):
+    exe = nv.build_harness("c03_faults", "plain", ["c03_faults.c", "peek_ex.c", "peek_lbuf.c"], replace=["ex", "lbuf"], wraps=WRAPS)
+    res = nv.run_shards(exe, ["tier=" + tier, "deadline=%d" % dl(tier)], nv.NCPU, dl(tier) + 120)
+    return nv.finish(pid, tier, t0, res, {
+        "rule": "buffer shapes {0 lines, 1 short line, 3x2000 bytes, one 5000-byte line, 2000+5000+10} x commands {w, w!, w g, w! g, wq, x, xa, wq!, xa!}; the call sequence "
+                "open/write*/close of each is learnt from a logged fault-free run, then every placement of <= deviation_bound faults (open->EACCES; write->ENOSPC/EIO/EINTR/short 1,n/2,n-1; "
+                "close->EIO) is executed in a fresh process; plus the target existence/identity/mtime guard matrix without faults; every execution is a distinct non-trivial case",
+        "deviation_bound": res.stats.get("deviation_bound"),
+        "explanation": "real editor (ex mode) over the in-memory VFS with a virtual clock; after the command: success reported <=> no error answer fired; file bytes exact on success; "
+                       "q + sentinel (refused after a failure, accepted after success); fault-free w! retry must succeed with exact bytes",
+    }, ["ftruncate is left at its default answer (not in the property's quantifier)", "EINTR on write is an error answer (the editor does not retry it; the property only exempts retried short writes)",
+        "mtime has one-second granularity: an external change within the same tick as the editor's own write is not 'newer'"], level="model_checking")
+
+
 def replay(path):
     print("replay artefact:")
     print(open(path).read())
